@@ -76,3 +76,17 @@ def run(ctx, replay):
     ctx.cov["distinct_nontrivial"] = sum(1 for b in behs if any(s["a"] == "Attempt" for s in b["hist"]))
     ctx.cov["rule"] = "behaviours of MsgPath.tla simulated by TLC; non-trivial = the queue made at least one attempt"
     ctx.cov["samples"] = [{"behaviour": behs[0]}]
+
+
+META = {
+    "engine": "pathcheck",
+    "level": "model_checking",
+    "statement": "For every SMTP/LMTP session with one transaction (any recipient list, recipients the pipeline refuses, DATA / "
+                 "RSET / disconnect) and every behaviour of the next hop over up to max_tries attempts, with or without a "
+                 "restart of the server after the first attempt: a recipient refused at RCPT never reaches the next hop, "
+                 "nothing reaches it without a 250 for DATA, it accepts the message at most once per recipient, and after "
+                 "a 250 every accepted recipient is accepted by the next hop exactly once or named in exactly one failure "
+                 "report (composition of C03, C04/C09 and C01).",
+    "technique": "TLA+ spec MsgPath.tla model-checked by TLC; behaviours replayed through the real endpoint -> pipeline -> "
+                 "queue -> smtp/lmtp forwarder -> scripted next hop; traces validated against MsgPathTrace.tla",
+}
